@@ -237,6 +237,20 @@ pub fn types_overlap<T: TypeLookup>(self_id: usize, pattern_id: usize, lookup: &
     )
 }
 
+/// A coinductive hypothesis "`self_id` relates to `pattern_id`" is about the two types as they
+/// stand where it is made: an id with back-references means another type below other enclosing
+/// types, so the hypothesis carries both stacks and only answers a question asked below the same.
+type Assumption = (usize, usize, Vec<usize>, Vec<usize>);
+
+fn assumption(
+    self_id: usize,
+    pattern_id: usize,
+    self_stack: &[usize],
+    type_stack: &[usize],
+) -> Assumption {
+    (self_id, pattern_id, self_stack.to_vec(), type_stack.to_vec())
+}
+
 /// Unified implementation of type relation checking.
 ///
 /// When `mode` is `All` (used by `is_compatible`):
@@ -251,7 +265,7 @@ fn check_type_relation<T: TypeLookup>(
     pattern_id: usize,
     lookup: &T,
     mode: UnionMode,
-    assumptions: &mut HashSet<(usize, usize)>,
+    assumptions: &mut HashSet<Assumption>,
     self_stack: &mut Vec<usize>,
     type_stack: &mut Vec<usize>,
 ) -> bool {
@@ -265,8 +279,9 @@ fn check_type_relation<T: TypeLookup>(
     }
 
     // Check if we've already assumed this relation holds (coinductive hypothesis)
-    let key = (self_id, pattern_id);
-    if assumptions.contains(&key) {
+    if !assumptions.is_empty()
+        && assumptions.contains(&assumption(self_id, pattern_id, self_stack, type_stack))
+    {
         return true;
     }
 
@@ -355,7 +370,7 @@ fn check_type_relation<T: TypeLookup>(
             // a hypothesis: if this check fails, restore the set so the failed hypotheses cannot
             // justify a later question.
             let snapshot = assumptions.clone();
-            assumptions.insert(key);
+            assumptions.insert(assumption(self_id, pattern_id, self_stack, type_stack));
 
             let self_already_on_stack = self_stack.contains(&self_id);
             if !self_already_on_stack {
@@ -402,7 +417,7 @@ fn check_type_relation<T: TypeLookup>(
             // union-on-right then a cycle — terminates at the assumption check above instead of
             // recursing without bound.
             let snapshot = assumptions.clone();
-            assumptions.insert(key);
+            assumptions.insert(assumption(self_id, pattern_id, self_stack, type_stack));
 
             let already_on_stack = type_stack.contains(&pattern_id);
             if !already_on_stack {
@@ -618,7 +633,7 @@ fn check_type_relation<T: TypeLookup>(
             // function type leads back to this same pair (`'f = #^ -> 'int` against
             // `#'f -> 'int`), and without the assumption check above that recursion never ends.
             let snapshot = assumptions.clone();
-            assumptions.insert(key);
+            assumptions.insert(assumption(self_id, pattern_id, self_stack, type_stack));
 
             let already_on_stack = type_stack.contains(&pattern_id);
             if !already_on_stack {
